@@ -1,0 +1,11 @@
+//go:build verif
+
+package tree
+
+import "github.com/pinealctx/neptune/ds/tree/btree"
+
+// VerifInner exposes the wrapped tree (build tag verif only) so that a checker can read its
+// length and node structure.  The caller must not use it concurrently with writers.
+func (b *BTree) VerifInner() *btree.BTree {
+	return b.t
+}
